@@ -361,9 +361,12 @@ class EIG(BaseRoutine):
             self.system.TDS.init()
             self.system.TDS.itm_step()
             self.calc_As()
-            mu, N = self.calc_eig(self.As)
 
-            self.mu, self.N = mu, N  # save to `EIG` for writing if needed
+            # save to `EIG` for writing if needed; keep the participation
+            # factors and the counts consistent with the stored eigenvalues
+            self.mu, self.pfactors, self.N, self.W = self.calc_pfactor()
+            self._store_stats()
+            mu = self.mu
 
             results[count] = dict(param_values=val, mu=mu,)
 
